@@ -6,6 +6,8 @@
         (one entry per `quinn::SendStream::poll_write` call);
     (b) the receive-side ownership machine `RecvStream::{poll_data, stop_sending, recv_id}`
         (`stream: Option<quinn::RecvStream>` is `None` while the boxed read future owns the stream);
+    (b') `StopSpec`: what `stop_sending` owes the peer, written from the caller's side (a
+        specification, not code: reading R-17 of DESIGN.md section 9);
     (c) `convert_connection_error`, `convert_read_error_to_stream_error`,
         `convert_write_error_to_stream_error` as finite tables over Quinn's error enums;
     (d) the unframed write path `SendStreamUnframed::poll_send` against one `poll_write` answer, and
@@ -412,6 +414,55 @@ def Recv.run : Recv → List RecvOp → Recv × List RecvOut
     let (r', o) := r.step op
     let (r'', os) := Recv.run r' ops
     (r'', o :: os)
+
+/-! ## (b') what the adapter's `stop_sending` owes the peer (specification, reading R-17)
+
+    Not part of the property's sentence about errors (that one speaks about conditions the PEER raises
+    surfacing in h3), but the documented purpose of `pending_stop`: the code handed to
+    `stop_sending` is given to Quinn — which tells the peer's writer — as soon as the adapter has the
+    Quinn stream in its hands: at the call when no read is in flight, otherwise when the read in
+    flight completes. Written from the caller's side (calls and whether a read completed), without
+    the ownership machine: `here`, `pendingStop` and `stops` do not occur. -/
+
+/-- `inFlight`: a `poll_data` answered `Pending` and no later one has completed. `asked`: the valid
+    codes of the `stop_sending` calls made while that read was in flight. `due`: once non-empty, the
+    stop is owed to the peer NOW, with one of these codes (Quinn honours the first `stop` it is
+    given, so later calls add nothing). `alive = false` after the receive half was dropped. -/
+structure StopSpec where
+  inFlight : Bool := false
+  asked : List Nat := []
+  due : List Nat := []
+  alive : Bool := true
+deriving Repr, DecidableEq
+
+/-- `stop_sending(c)`. A code that is no QUIC varint is refused by the documented `expect`. -/
+def StopSpec.onStop (s : StopSpec) (c : Nat) : StopSpec :=
+  if c ≥ 2^62 then s
+  else if !s.due.isEmpty then s
+  else if s.inFlight then { s with asked := s.asked ++ [c] }
+  else { s with due := [c] }
+
+/-- A `poll_data` that answered `Pending` (`completed = false`) or anything else. -/
+def StopSpec.onRead (s : StopSpec) (completed : Bool) : StopSpec :=
+  if !completed then { s with inFlight := true }
+  else if s.due.isEmpty then { s with inFlight := false, due := s.asked, asked := [] }
+  else { s with inFlight := false }
+
+def ReadEv.completed : ReadEv → Bool
+  | .pending => false
+  | _ => true
+
+def StopSpec.step (s : StopSpec) (op : RecvOp) : StopSpec :=
+  if !s.alive then s else
+  match op with
+  | .pollData ev => s.onRead ev.completed
+  | .stopSending c => s.onStop c
+  | .recvId => s
+  | .drop => { s with alive := false }
+
+def StopSpec.run : StopSpec → List RecvOp → StopSpec
+  | s, [] => s
+  | s, op :: ops => StopSpec.run (s.step op) ops
 
 /-! ## (d) the unframed write path -/
 
